@@ -24,6 +24,11 @@
 // Every schedule with <= bound preemptions is enumerated (own DFS over vs.RunOnce; every replay is checked to reach
 // the same scheduling points as its parent, so the enumeration is systematic even though the chain keeps growing
 // from one execution to the next).
+//
+// Two sequential phases (no scheduler) run beside the schedule workers, in the main process:
+// views.go (every read kind through query views held across later commits, on real PebbleDB and memdb, vs. a map
+// model) and uncommitted.go (twin-node differential: only node A serves simulates / failing txs / mempool checks /
+// queries carrying multi-message deploys of a DRAFT of a library that is really deployed, differently, afterwards).
 package main
 
 import (
@@ -1044,6 +1049,7 @@ func main() {
 	raceBin := flag.String("racebin", "", "path of the -race build of this harness")
 	only := flag.Int("only", -1, "run only this scenario index")
 	prof := flag.String("cpuprofile", "", "internal: CPU profile of a worker")
+	phase := flag.String("phase", "all", "all | sched | views | uncommitted (debugging: run one phase only)")
 	r := vk.New("exploration")
 	debug.SetGCPercent(400)
 	if *prof != "" {
@@ -1071,13 +1077,28 @@ func main() {
 	}
 	if *only >= 0 {
 		groups = [][]int{{*only}}
+		*phase = "sched"
+	}
+	if *phase != "all" && *phase != "sched" {
+		groups = nil
+	}
+	// the two sequential phases (no scheduler) run in this process beside the schedule workers
+	var viewsCov, uncCov map[string]any
+	var phases sync.WaitGroup
+	if *phase == "all" || *phase == "views" {
+		phases.Add(1)
+		go func() { defer phases.Done(); viewsCov = viewsPhase(r) }()
+	}
+	if *phase == "all" || *phase == "uncommitted" {
+		phases.Add(1)
+		go func() { defer phases.Done(); uncCov = uncommittedPhase(r, 4) }()
 	}
 	// the race pass runs concurrently with the schedule workers
 	raceNote := "race pass not run (no -race binary)"
 	raceDone := make(chan struct{})
 	var raceOut string
 	var raceErr error
-	if *raceBin != "" && *only < 0 {
+	if *raceBin != "" && *phase == "all" {
 		go func() {
 			cmd := exec.Command(*raceBin, "-id", r.ID, "-freerun", map[bool]string{true: "4", false: "150"}[r.Quick()], "-budget", fmt.Sprintf("%ds", int(r.Budget.Seconds()*0.8)))
 			cmd.Env = append(os.Environ(), "GORACE=halt_on_error=0")
@@ -1165,7 +1186,8 @@ func main() {
 		}
 	}
 	<-raceDone
-	if *raceBin != "" && *only < 0 {
+	phases.Wait()
+	if *raceBin != "" && *phase == "all" {
 		s := raceOut
 		if strings.Contains(s, "DATA RACE") {
 			r.Violation("data-race:"+raceKey(s), map[string]any{"output": tail(s, 8000)})
@@ -1212,7 +1234,7 @@ func main() {
 		"the chain keeps growing across executions (a fresh app per schedule would cost seconds); every replay is checked to hit the same points as its parent, and a query-free twin application executing the same tx bytes provides the per-height reference answers",
 	}
 	r.Finish("every schedule with <= bound preemptions per scenario; distinct = distinct (scenario, vector of query observations relative to the epoch height)",
-		true, map[string]any{"schedules": total, "per_scenario": per, "race_pass": raceNote})
+		true, map[string]any{"schedules": total, "per_scenario": per, "race_pass": raceNote, "views_phase": viewsCov, "uncommitted_phase": uncCov})
 }
 
 func raceKey(s string) string {
